@@ -183,11 +183,11 @@ func (r *runner) env(what string) *mismatch {
 		}
 		r.db = db
 		if mid := r.dump(false); mid != before {
-			return &mismatch{"env.reopenCompact.contentChanged", map[string]string{"before": before, "after": mid}}
+			return &mismatch{changedSig("env.reopenCompact", before, mid), map[string]string{"before": before, "after": mid}}
 		}
 		time.Sleep(60 * time.Millisecond) // compactors tick every 50ms
 		if mid := r.dump(false); mid != before {
-			return &mismatch{"env.reopenCompact.contentChanged", map[string]string{"before": before, "after": mid}}
+			return &mismatch{changedSig("env.reopenCompact", before, mid), map[string]string{"before": before, "after": mid}}
 		}
 		if err := r.db.Close(); err != nil {
 			return &mismatch{"env.reopenCompact.close", err.Error()}
@@ -197,7 +197,7 @@ func (r *runner) env(what string) *mismatch {
 			return &mismatch{"env.reopen.open", err.Error()}
 		}
 		if after := r.dump(false); after != before {
-			return &mismatch{"env.reopenCompact.contentChanged", map[string]string{"before": before, "after": after}}
+			return &mismatch{changedSig("env.reopenCompact", before, after), map[string]string{"before": before, "after": after}}
 		}
 		if m := r.resync(); m != nil {
 			return m
@@ -217,6 +217,33 @@ func (r *runner) env(what string) *mismatch {
 		fmt.Fprintln(os.Stderr)
 	}
 	return nil
+}
+
+// changedSig names a difference between two visible-content dumps: "resurrectedKey" when the
+// later dump only gained entries (a key that was invisible became visible), "contentChanged"
+// otherwise.
+func changedSig(prefix, before, after string) string {
+	have := map[string]bool{}
+	for _, e := range strings.Split(before, ";") {
+		have[e] = true
+	}
+	gained, lost := 0, 0
+	seen := map[string]bool{}
+	for _, e := range strings.Split(after, ";") {
+		seen[e] = true
+		if !have[e] {
+			gained++
+		}
+	}
+	for e := range have {
+		if !seen[e] {
+			lost++
+		}
+	}
+	if gained > 0 && lost == 0 {
+		return prefix + ".resurrectedKey"
+	}
+	return prefix + ".contentChanged"
 }
 
 // dump renders the content at the maximal timestamp: every retained version (all=true) or
